@@ -39,7 +39,9 @@ def run(prop, tier, seed, judged, rule, module="ManifTrace", subsample=None, ext
     for k, rc, so, ls in recs:
         rep.traces += 1
         if rc != 0:
-            raise vlib.ModelError("recorder %s exited with %d: %s" % (k, rc, so[-500:]))
+            # the library aborted (assertion failure, crash, uncaught exception) on a planned valid input
+            rep.violations.append(("recorder %s aborted with %d after %d events: %s" % (k, rc, len(ls), so[-300:].replace("\n", " ")), json.dumps({"e": "crash", "key": k})))
+            ls = [l for l in ls if l.endswith("}") and '"e":"terminate"' not in l]
         lines += ls
     results, st2 = vlib.validate(lines, wd, module=module)
     rep.states += st2[0]; rep.transitions += st2[1]
